@@ -214,6 +214,8 @@ def run_group(scratch, package, features, harnesses, jobs, tier, idx):
     names = full_names(scratch, None, harnesses, None)
     default_to = 300 if tier == "quick" else 2400
     to = max([h.timeout or default_to for h in harnesses])
+    if tier == "quick":
+        to = min(to, 600)
     mem_kb = int(os.environ.get("VERIF_MEM_GB", "10" if tier == "quick" else "20")) * 1024 * 1024
     # wall cap: build + ceil(n/jobs) rounds of the harness timeout
     rounds = (len(harnesses) + jobs - 1) // jobs
@@ -328,7 +330,14 @@ def playback(scratch, h, fq, features, idx, prop):
         cmd += ["--features", ",".join(features)]
     run_limited(cmd, scratch.repo, plog, 24 * 1024 * 1024, 2400)
     out = open(plog).read()
-    tests = [t for t in PLAYBACK_RE.findall(out) if "Check for `cover`" not in t]
+    tests = []
+    for t in PLAYBACK_RE.findall(out):
+        if "Check for `cover`" in t or "#[test]" not in t:
+            continue
+        # the header quotes the failed check; its text may span lines (not valid as a comment): flatten it
+        head, body = t.split("#[test]", 1)
+        head = " ".join(x.strip().lstrip("/").strip() for x in head.strip().splitlines())
+        tests.append("// " + head[:300] + "\n#[test]" + body)
     if not tests:
         return False, None, "kani produced no concrete playback test for the failed check"
     os.makedirs(REPLAY_DIR, exist_ok=True)
@@ -627,7 +636,7 @@ def replay(path):
         hf = [f for f in files if os.path.relpath(f.path, VERIF) == kv["file"] or os.path.basename(f.path) == os.path.basename(kv["file"])][0]
         scratch.inject([f for f in files if f.package == hf.package])
         feats = tuple(x for x in kv.get("features", "").split(",") if x)
-        tests = "\n".join(PLAYBACK_RE.findall("```\n" + text.split("\n\n", 1)[1] + "```")) or text.split("\n\n", 1)[1]
+        tests = text.split("\n\n", 1)[1]
         ok, detail = run_playback_tests(scratch, hf, hf.package, feats, tests)
         print(("REPRODUCED: " if ok else "not reproduced: ") + detail)
         return 1 if ok else 0
